@@ -1213,7 +1213,7 @@ func plan(thorough bool) []config {
 		return out
 	}
 	for _, t := range types {
-		d3, d2 := 6, 8
+		d3, d2 := 6, 7
 		if t == "gcounter" {
 			d3, d2 = 7, 10
 		}
